@@ -226,7 +226,7 @@ func buildResponse(req *sipwire.Msg, rp respPlan, reqID string) []byte {
 			b.Add(h.Name, h.Value)
 		case "to":
 			v := h.Value
-			if rp.toTag != "" && !strings.Contains(v, ";tag=") {
+			if rp.toTag != "" && !hasTagParam(v) {
 				v += ";tag=" + rp.toTag
 			}
 			b.Add(h.Name, v)
@@ -237,6 +237,16 @@ func buildResponse(req *sipwire.Msg, rp respPlan, reqID string) []byte {
 		b.Add("Expires", strconv.Itoa(rp.expires))
 	}
 	return b.Bytes()
+}
+
+// hasTagParam: does the From / To value carry a tag parameter (what a quoted display name contains does not count)?
+func hasTagParam(v string) bool {
+	na, err := sipwire.ParseNameAddr(v)
+	if err != nil {
+		return strings.Contains(v, ";tag=")
+	}
+	_, ok := na.HParam("tag")
+	return ok
 }
 
 func reasonOf(status int) string {
@@ -331,7 +341,7 @@ func decorateAddr(style int, uri, tag string) string {
 	case 0:
 		s = "<" + uri + ">"
 	case 1:
-		s = "\"Some One\" <" + uri + ">"
+		s = "\"Some;tag=zz9 <One>\" <" + uri + ">" // what a quoted display name contains is not a tag and not the address
 	case 2:
 		s = "Display <" + uri + ";user=phone>"
 	case 3:
@@ -935,7 +945,7 @@ func (d *dlgWorld) installStickyRules(prop string) {
 		switch {
 		case step == "inv":
 			tos := m.Get("to")
-			hasTag := len(tos) > 0 && strings.Contains(tos[0], ";tag=")
+			hasTag := len(tos) > 0 && hasTagParam(tos[0])
 			if !hasTag {
 				return
 			}
